@@ -5,7 +5,8 @@
 #[derive(PartialEq, Eq, Structural)]
 pub enum DevouredWhitespace { Whitespace, Newline, None }
 pub enum Combinator { NextSibling, Child, FollowingSibling }
-pub struct Attribute { }
+pub enum AttributeOp { Any, Equals, Include, Dash, Prefix, Suffix, Contains }
+pub struct Attribute { pub attr: QualifiedName, pub value: String, pub modifier: Option<char>, pub op: AttributeOp, pub span: Span }
 pub enum Namespace { Empty, Asterisk, Other(String), None }
 pub struct QualifiedName { pub ident: String, pub namespace: Namespace }
 pub struct Pseudo {
@@ -25,6 +26,8 @@ impl ComplexSelector {
 }
 pub struct SelectorList { pub components: Vec<ComplexSelector>, pub span: Span }
 
+// the attribute parser's parameter type is spelled `SelectorParser` in selector/attribute.rs
+pub type SelectorParser = SP;
 pub struct SP { pub allows_parent: bool, pub allows_placeholder: bool, pub toks: Lexer, pub span: Span }
 
 // R30-style uninterpreted text tests: membership of the unvendored pseudo name in the two
